@@ -270,6 +270,12 @@ fn run(ctx: &mut Ctx) {
             }
         }
     }
+    let total_large = ctx.tier.pick(8000, 150000);
+    let strat_large = move || case_strategy_large(ALL_POOLS, W_DEFAULT, |c: Cfg| c);
+    ctx.generated("gen-large", &strat_large, total_large, &|s, c, st| {
+        count_pool(c, st);
+        case_fn(s, c, st)
+    });
     if ctx.tier == crate::runner::Tier::Thorough {
         ctx.fuzz_campaign("fuzz_build", 20000);
     }
